@@ -372,6 +372,8 @@ def rule_genpub(ctx):
     re-entry, rules/genpublisher.py)."""
     from .genpublisher import rule_completed_publisher_stays_completed
     rule_completed_publisher_stays_completed(ctx, 'C07.e')
+    from .genpublisher import rule_failure_stops_delivery_first
+    rule_failure_stops_delivery_first(ctx, 'C07.e')
 
 
 RULES = [('C07.a', rule_a), ('C07.b', rule_b), ('C07.c', rule_c), ('C07.d', rule_d), ('C11.h+C11.b+C09.e+C11.a+C01.h', rule_e), ('C07.e', rule_genpub)]
